@@ -512,11 +512,19 @@ def run_termination(ctx, impl, rng, count):
     cycle; a few of those are confirmed on the implementation with a time-out, the others are run normally."""
     FUEL = 150
     cases = []
+    # a 6-node witness (period-2 cycle of labelings), then dense random weighted digraphs
+    wit = [[(3, 2), (5, 3)], [(0, 2), (2, 1), (3, 1), (4, 2)], [(0, 1), (3, 3), (5, 3)], [(5, 1)], [(1, 3), (2, 3)],
+           [(0, 2), (1, 3), (2, 1), (3, 1), (4, 1)]]
+    gw = dict(shape=[6, 6], coo=[[i, j, w] for i, r in enumerate(wit) for j, w in r], bip=False, undirected=False,
+              family='directed:cycle_witness')
+    cases.append(dict(fam='default_n_iter_digraph', g=gw, vec=[1, -1, -1, -1, 0, -1], kw=dict(labels={'dict': [[0, 1], [4, 0]]}),
+                      form='dict', weighted=True, node_order=None, n_iter=None))
     for _ in range(count):
-        g = make_graph(rng, 8, kind='directed')
-        n = g['shape'][0]
-        if n < 4:
+        n = rng.randint(5, 7)
+        coo = [[i, j, rng.randint(1, 3)] for i in range(n) for j in range(n) if i != j and rng.random() < 0.4]
+        if not coo:
             continue
+        g = dict(shape=[n, n], coo=coo, bip=False, undirected=False, family='directed:dense')
         vec = [-1] * n
         a, b = rng.sample(range(n), 2)
         vec[a], vec[b] = 0, 1
@@ -915,7 +923,8 @@ def run_label_range(ctx, impl, rng, count):
         r = impl.call('c13', 'propagation', args, timeout=15)
         ctx.traces += 1
         ctx.count('Propagation:label_range', ('plr', args), True)
-        f = dict(weighted=c['weighted'], form=c['form'], labels_ge_n=True)
+        f = dict(weighted=c['weighted'], form=c['form'], labels_ge_n=True, node_order='none', n_iter_default=False,
+                 seed_vector_all_distinct=len(set(c['vec'])) == len(c['vec']), family='label_range')
         if 'ok' not in r:
             ctx.violation('vote_update_label_range', 'Propagation with a seed label >= n crashed / hung / raised', case=args,
                           kind='hang' if 'hang' in r else ('crash' if 'crash' in r else 'error'),
@@ -929,4 +938,4 @@ def run_label_range(ctx, impl, rng, count):
         elif mv[0] == 'POk' and list(mv[1][0]) != labels:
             ctx.violation('vote_update_label_range', 'labels differ from the model with a seed label >= n', case=args, kind='model_diff',
                           expected=list(mv[1][0]), observed=labels, **f)
-        check_common(ctx, 'vote_update_label_range', c['g'], c['vec'], o, args, f)
+        check_common(ctx, 'Propagation', c['g'], c['vec'], o, args, f)
